@@ -572,7 +572,7 @@ MUTANTS = [
     dict(name='vector-rotation-in-radians', file=_CY, find="rotate_z(phi / M_PI * 180)", replace="rotate_z(phi)", expect='C13-R2'),
     dict(name='clamp-input-y-uses-x-bounds', file=_CL, find="        y = clamp(y, self._ymin, self._ymax)\n        z = clamp(z, self._zmin, self._zmax)", replace="        y = clamp(y, self._xmin, self._xmax)\n        z = clamp(z, self._zmin, self._zmax)", expect='C13-R2'),
     dict(name='slice3d-axis1-wrong-slot', file=_SL, find="return self._function.evaluate(x, self.value, y)", replace="return self._function.evaluate(x, y, self.value)", expect='C13-R2'),
-    dict(name='periodic-y-uses-period-x', file=_PE, find="        y = remainder(y, self.period_y)\n\n        return self.function2d.evaluate(x, y)", replace="        y = remainder(y, self.period_x)\n\n        return self.function2d.evaluate(x, y)", expect='C13-R2'),
+    dict(name='periodic-y-uses-period-x', file=_PE, find="        y = remainder(y, self.period_y)\n\n        return self.function2d.evaluate(x, y)", replace="        y = remainder(y, self.period_x)\n\n        return self.function2d.evaluate(x, y)", occurrence=0, of=2, expect='C13-R2'),
     dict(name='cylindrical-atan2-swapped', file=_CY, find="        phi = atan2(y, x)\n\n        return self.function3d.evaluate(r, phi, z)\n", replace="        phi = atan2(x, y)\n\n        return self.function3d.evaluate(r, phi, z)\n", expect='C13-R2'),
     dict(name='sampler-index-swap', file=_SA, find="            v_view[i, j] = f2d.evaluate(x_view[i], y_view[j])", replace="            v_view[j, i] = f2d.evaluate(x_view[i], y_view[j])", occurrence=0, of=2, expect='C13-R3'),
     dict(name='sampler-endpoint-false', file=_SA, find="    x = linspace(x_range[0], x_range[1], samples)", replace="    x = linspace(x_range[0], x_range[1], samples, endpoint=False)", expect='C13-R3'),
